@@ -125,6 +125,12 @@ def scan_development():
                 bad.append("%s:%d: %s" % (os.path.relpath(f, ROOT), ln, line.strip()))
             if depth == 0 and SECTION_ONLY.match(line):
                 bad.append("%s:%d: %s" % (os.path.relpath(f, ROOT), ln, line.strip()))
+        # property files hold nothing but statements closed by `exact <lemma>` (Examples may compute)
+        if os.sep + "Props" + os.sep in f:
+            for m in re.finditer(r"\bTheorem\s+(\w+)\b.*?\bProof\.(.*?)\bQed\.", src, re.S):
+                body = m.group(2).strip()
+                if not re.fullmatch(r"exact\s+@?[\w.']+\s*\.", body):
+                    bad.append("%s: theorem %s is not closed by a bare `exact <lemma>`" % (os.path.relpath(f, ROOT), m.group(1)))
     return bad
 
 
